@@ -152,6 +152,10 @@ def run(chk, repo: Repo):
     chk.rule("C03-R8", "chain rule, structural part: every square root of a point-dependent quantity in an analytic gradient is the square root of a "
                        "quantity that occurs under a square root in the same class's log-density (d sqrt(R) = R'/(2 sqrt(R)) introduces no other radicand)", floor=1)
     _r8(chk, repo)
+    chk.rule("C03-R9", "the NaN reported outside the support is a floating-point NaN for every dtype of the evaluation point (no dtype-preserving "
+                       "constructor filled with NaN)", floor=20)
+    from ..dtypelint import dtype_rule
+    dtype_rule(chk, repo, "C03-R9", ("cuqi/distribution/", "cuqi/density/", "cuqi/likelihood/"))
 
 
 def _r8(chk, repo):
